@@ -680,6 +680,8 @@ int file::Handle::close()
 
 size_t file::Handle::write(const char * buf, unsigned n)
 {
+  if (n == 0)
+    return 0;
   return ::fwrite(buf, 1, n, _file);
 }
 
